@@ -9,7 +9,9 @@ from ..e3_rules import get_engine, Shape
 from ..e3_state import State
 from ..e3_values import *  # noqa
 from ..e3_interp import Raised, PathLimit
-from .common import rule_construct, report_undecided, norm
+from .common import rule_construct, report_undecided, norm, runs_of, Relevant
+
+RELEVANT = Relevant()
 
 EN = ["one", "two", "three", "four", "five", "six", "seven", "eight", "nine", "ten", "eleven",
       "twelve", "thirteen", "fourteen", "fifteen", "sixteen", "seventeen", "eighteen", "nineteen",
@@ -46,6 +48,7 @@ def check(ctx, rep, tier):
                  "unit's offset; every unit yields an interval")
     rep.describe("consistency", "'<N days> <range>' returns the range only under equality of the "
                  "range's day difference and the duration's days, and nothing otherwise")
+    RELEVANT.names.clear()
     unit_names = _enum_members(ctx)
     _tables(ctx, rep, eng, unit_names)
     _amount(ctx, rep, eng, unit_names)
@@ -53,7 +56,7 @@ def check(ctx, rep, tier):
     _lexicon(ctx, rep, eng)
     _end_date(ctx, rep, eng, unit_names)
     _consistency(ctx, rep, eng)
-    report_undecided(rep, eng)
+    report_undecided(rep, eng, RELEVANT)
     rep.assume("not decided: the value of date + N units (dateutil's calendar arithmetic)")
 
 
@@ -66,7 +69,8 @@ def _enum_members(ctx):
 
 
 def _runs_of(eng, rule):
-    return [run for mk, run in eng.runs.items() if run.rule is rule]
+    RELEVANT.add(rule)
+    return runs_of(eng, rule)
 
 
 def _duration_rules(ctx, eng):
